@@ -192,7 +192,10 @@ async def _async_iter_scenario(seed: int) -> dict[str, Any]:
     assert isinstance(loop, vloop.VLoop)
 
     def writer(i: int) -> None:
-        b.send(b"pk%d\n" % i)
+        try:
+            b.send(b"pk%d\n" % i)
+        except OSError:
+            return  # the scenario is over (iterator timed out, sockets closed)
         if i + 1 < npk:
             loop.call_at(t0 + times[i + 1], writer, i + 1)
 
